@@ -11,7 +11,7 @@ RULE = ("every case of each listed space is executed on nearest_neighbor and sym
         "set is non-empty; distinct = distinct case tuples (digest-sharded)")
 ASSUMPTIONS = ["strings longer than the stated bounds / alphabets larger than 4 letters are covered only through the CDR3 one-edit/two-edit ball families",
                "rapidfuzz is exercised, not trusted: every reported d is compared with the reference"]
-REQUIRED_CLASSES = {"all": ["all-sequences-of-one-length", "container-reused-with-new-contents", "size-boundary-family", "non-ascii-alphabet", "needs-indel", "has-empty-string", "duplicate-at-distance-0", "shorter-than-k", "homopolymer"]}
+REQUIRED_CLASSES = {"all": ["clone-of-more-than-128-copies", "non-amino-acid-symbol-after-long-prefix", "all-sequences-of-one-length", "container-reused-with-new-contents", "size-boundary-family", "non-ascii-alphabet", "needs-indel", "has-empty-string", "duplicate-at-distance-0", "shorter-than-k", "homopolymer"]}
 MIN_OUTCOMES = 10
 
 CDR3_SEEDS = ("CASSLGQAYEQYF", "CAVRDSNYQLIW", "CASSPTGGDTQYF", "CAS")
@@ -84,6 +84,10 @@ def spaces(tier):
             yield ("eqlen", "AC", 6, k)
             yield ("eqlen", "ACD", 4, k)
             yield ("eqlen", "ACDE", 3, k)
+        yield ("clone", 150, 1)
+        yield ("clone", 257, 2)
+        yield ("late-symbol", 130, 1)
+        yield ("late-symbol", 1030, 1)
 
     def gen_reuse():
         U = E.universe("AC", 2)
@@ -135,6 +139,18 @@ def build(case):
         return family(si, radius, alphabet), k
     if kind == "sizefam":
         return E.size_family(case[1])[0], case[2]
+    if kind == "clone":
+        # an expanded clone: the same sequence many times (distance-0 neighbours at different positions) plus a few variants
+        _, n, k = case
+        base = "CASSLGQAYEQYF"
+        return [base] * n + [base[:5] + "A" + base[6:], base[:-1], base + "G", "CAWWLGQAYEQYF", base], k
+    if kind == "late-symbol":
+        # a long amino-acid-only prefix followed by sequences with other symbols (X, *, lower case) next to their neighbours
+        _, n, k = case
+        base = "CASSLGQAYEQYF"
+        fill = [E.filler(i) for i in range(n)]
+        fill[0], fill[1], fill[n // 2] = base, base[:4] + "T" + base[5:], base[:7] + "K" + base[8:]
+        return fill + [base[:4] + "X" + base[5:], base[:4] + "*" + base[5:], base.lower(), base[:7] + "x" + base[8:], base + "X"], k
     if kind == "eqlen":
         _, alpha, L, k = case
         return ["".join(t) for t in itertools.product(alpha, repeat=L)], k
@@ -180,6 +196,10 @@ def check_case(case, acc):
         acc.cls("size-boundary-family")
     if case[0] == "eqlen":
         acc.cls("all-sequences-of-one-length")
+    if case[0] == "clone":
+        acc.cls("clone-of-more-than-128-copies")
+    if case[0] == "late-symbol":
+        acc.cls("non-amino-acid-symbol-after-long-prefix")
     if case[0] == "allpairs" and not case[1].isascii():
         acc.cls("non-ascii-alphabet")
     # classes named by the property
